@@ -7,10 +7,11 @@
 
 namespace OP2Utility
 {
-#pragma pack(push, 1) // Make sure structures are byte aligned
-
+	// Only the records copied to and from the file as a block are byte packed.
+	// Frame and Animation own std::vector members and so keep their natural alignment.
 	struct Animation {
 		struct Frame {
+#pragma pack(push, 1) // Make sure structures are byte aligned
 			struct LayerMetadata {
 				uint8_t count : 7;
 				uint8_t bReadOptionalData : 1;
@@ -26,6 +27,7 @@ namespace OP2Utility
 			};
 
 			static_assert(8 == sizeof(Layer), "Animation::Frame::Layer is an unexpected size");
+#pragma pack(pop)
 
 			LayerMetadata layerMetadata;
 			LayerMetadata unknownBitfield;
@@ -39,6 +41,7 @@ namespace OP2Utility
 			std::vector<Layer> layers;
 		};
 
+#pragma pack(push, 1) // Make sure structures are byte aligned
 		struct UnknownContainer {
 			uint32_t unknown1;
 			uint32_t unknown2;
@@ -47,6 +50,7 @@ namespace OP2Utility
 		};
 
 		static_assert(16 == sizeof(UnknownContainer), "Animation::UnknownContainer is an unexpected size");
+#pragma pack(pop)
 
 		uint32_t unknown;
 		Rect selectionRect; // pixels
@@ -57,6 +61,4 @@ namespace OP2Utility
 
 		std::vector<UnknownContainer> unknownContainer;
 	};
-
-#pragma pack(pop)
 }
